@@ -146,6 +146,8 @@ def known_line(res, kf, still_fails, detail):
 
 # ---- C01 ----------------------------------------------------------------------------------------------------
 def c01_known_class(it):
+    if it.cls.get('exact') == '1' and it.cls.get('revrange') != '1':
+        return None        # inside the class of C01_conformance: a disagreement there is never a known finding
     if it.cls.get('rft') == '1':
         return 'rooted_first_tree'
     if it.cls.get('stable') == '0':
